@@ -7,7 +7,7 @@ Not decided: _grouped_ys, raw_learners, moving_average values.
 """
 import ast
 
-from ..model import walk_shallow, call_name, is_self_attr, dotted_name, parent, ancestors, enclosing_function
+from ..model import walk_shallow, call_name, is_self_attr, dotted_name, parent, ancestors, enclosing_function, rename_copy
 from ..util import (has_call, find_calls, assigned_value, const_str, unparse, kw, arg_or_kw, enclosing_stmt,
                     guards_of, call_tail, control_ancestors)
 from .. import mutate as M
@@ -24,11 +24,103 @@ OWN = {"environments": "environment_id", "learners": "learner_id", "evaluators":
 ORDER = ["environment_id", "learner_id", "evaluator_id"]
 
 
+def _roles_tables(fn, m=None):
+    from ..util import bound_names
+    m = {} if m is None else m
+    for t in ("environments", "learners", "evaluators", "interactions"):
+        for n in bound_names(fn, lambda v, t=t: unparse(v) == f"self.{t}"):
+            m[n] = t
+    return m
+
+
+def _roles_group_p(fn):
+    from ..util import bound_names
+    m = _roles_tables(fn)
+    for n in bound_names(fn, lambda v: "self._grouped_ys(" in unparse(v)):
+        m[n] = "indexes"
+    idx = next((k for k, v in m.items() if v == "indexes"), "indexes")
+    for n in bound_names(fn, lambda v: unparse(v) == f"len(set(map(itemgetter(1), {idx})))"):
+        m[n] = "n_levels"
+    for x in walk_shallow(fn):
+        if isinstance(x, ast.Assign) and isinstance(x.targets[0], ast.Tuple) and unparse(x.value) == "([], [], 0, 0)":
+            for t, r in zip(x.targets[0].elts, ("to_keep", "to_remove", "n_larger", "n_smaller")):
+                m[unparse(t)] = r
+        if isinstance(x, ast.For) and "grouper(" in unparse(x.iter) and isinstance(x.target, ast.Tuple) and len(x.target.elts) == 2:
+            m[unparse(x.target.elts[1])] = "group"
+        if isinstance(x, ast.GeneratorExp) and isinstance(x.elt, ast.Subscript) and isinstance(x.elt.slice, ast.Slice):
+            m[unparse(x.generators[0].target)] = "g"
+    for n in bound_names(fn, lambda v: "self._remove(" in unparse(v)):
+        m[n] = "select"
+    return m
+
+
+def _roles_global_n(fn):
+    from ..util import bound_names
+    m = _roles_tables(fn)
+    for x in walk_shallow(fn):
+        if isinstance(x, ast.For) and "groupby(" in unparse(x.iter) and isinstance(x.target, ast.Tuple) and len(x.target.elts) == 2:
+            m[unparse(x.target.elts[0])] = "env_idx"
+            m[unparse(x.target.elts[1])] = "env_len"
+    inv = {v: k for k, v in m.items()}
+    idxn, lenn = inv.get("env_idx", "env_idx"), inv.get("env_len", "env_len")
+    for x in walk_shallow(fn):
+        if isinstance(x, ast.If) and unparse(x.test).startswith(lenn + " <"):
+            for c in walk_shallow(x):
+                if isinstance(c, ast.Call) and call_tail(c) == "append" and isinstance(c.func.value, ast.Name):
+                    in_body = any(c in list(walk_shallow(s_)) for s_ in x.body)
+                    if unparse(c.args[0]) == idxn:
+                        m[c.func.value.id] = "to_drop" if in_body else "to_keep"
+                    elif unparse(c.args[0]) == lenn:
+                        m[c.func.value.id] = "env_lengths"
+    for n in bound_names(fn, lambda v: isinstance(v, ast.IfExp) and "'min'" in unparse(v.test)):
+        m[n] = "shorten_to"
+    return m
+
+
+def _roles_remove(fn):
+    from ..util import bound_names
+    m = {}
+    for x in walk_shallow(fn):
+        if isinstance(x, ast.Assign) and isinstance(x.targets[0], ast.Tuple) and "self.interactions[[" in unparse(x.value) and len(x.targets[0].elts) == 3:
+            for t, r in zip(x.targets[0].elts, ("env_ids", "lrn_ids", "val_ids")):
+                m[unparse(t)] = r
+        if isinstance(x, ast.Assign) and isinstance(x.targets[0], ast.Tuple) and len(x.targets[0].elts) == 3 and unparse(x.value).startswith("ids["):
+            for t, r in zip(x.targets[0].elts, ("e", "l", "v")):
+                m[unparse(t)] = r
+    inv = {v: k for k, v in m.items()}
+    order = [(inv.get("env_ids", "env_ids"), "1"), (inv.get("lrn_ids", "lrn_ids"), "2"), (inv.get("val_ids", "val_ids"), "3")]
+    for col, k in order:
+        for n in bound_names(fn, lambda v, col=col: isinstance(v, ast.Call) and call_name(v) == "my_bisect_left" and unparse(v.args[0]) == col):
+            m[n] = "lo" + k
+        for n in bound_names(fn, lambda v, col=col: isinstance(v, ast.Call) and call_name(v) == "my_bisect_right" and unparse(v.args[0]) == col):
+            m[n] = "hi" + k
+    for n in bound_names(fn, lambda v: unparse(v) == "len(self.interactions)"):
+        m[n] = "n_interactions"
+    for n in bound_names(fn, lambda v: isinstance(v, ast.List) and not v.elts):
+        m[n] = "select"
+    for n in bound_names(fn, lambda v: isinstance(v, ast.Constant) and v.value == 0):
+        m[n] = "loc"
+    return m
+
+
+_FN_CACHE = {}
+
+
+def _fn(ctx, qual):
+    """anchor function with its locals renamed to role names"""
+    if qual not in _FN_CACHE or _FN_CACHE[qual][0] is not ctx:
+        f = ctx.fn(RES, qual)
+        roles = {"Result._group_p": _roles_group_p, "Result._global_n": _roles_global_n, "Result._remove": _roles_remove}.get(qual)
+        _FN_CACHE[qual] = (ctx, rename_copy(f, roles(f)) if roles else f)
+    return _FN_CACHE[qual][1]
+
+
 def run(ctx):
     r1_narrowing(ctx)
     r2_completeness(ctx)
     r3_length(ctx)
     r4_order(ctx)
+    r5_tail_windows(ctx)
 
 
 def _table_of(expr):
@@ -45,6 +137,7 @@ def r1_narrowing(ctx):
     cls = ctx.model.cls(RES, "Result")
     n = 0
     for mname, fn in sorted(cls.methods.items()):
+        fn = rename_copy(fn, _roles_tables(fn))
         for c in walk_shallow(fn):
             if not (isinstance(c, ast.Call) and isinstance(c.func, ast.Attribute) and c.func.attr == "where"):
                 continue
@@ -64,7 +157,7 @@ def r1_narrowing(ctx):
                                    pos == ORDER.index(OWN[tbl]), detail={"variable": k.value.id, "position": pos}, stmt=f"{k.value.id} position for {tbl}")
     ctx.floor("C18.R1", "parameter-table narrowings by id", n, 6)
     # the kept triples are (env,lrn,val): _group_p asks _grouped_ys for the ids in that order and slices them out
-    gp = ctx.fn(RES, "Result._group_p")
+    gp = _fn(ctx, "Result._group_p")
     calls = [c for c in walk_shallow(gp) if isinstance(c, ast.Call) and call_tail(c) == "_grouped_ys"]
     ok = len(calls) == 1 and [unparse(a) for a in calls[0].args[:5]] == ["p", "l", "'environment_id'", "'learner_id'", "'evaluator_id'"]
     ctx.ob("C18.R1", RES, "Result._group_p", calls[0] if calls else gp, "groups are listed with their (environment, learner, evaluator) ids in index order", ok)
@@ -72,7 +165,7 @@ def r1_narrowing(ctx):
     ok = bool(sl) and all(unparse(s.slice) == "2:5" for s in sl)
     ctx.ob("C18.R1", RES, "Result._group_p", sl[0] if sl else gp, "kept/removed triples are exactly the three id fields of a group entry", ok, stmt="g[2:5]")
     for mname in ("_group_p", "_global_n"):
-        fn = ctx.fn(RES, f"Result.{mname}")
+        fn = _fn(ctx, f"Result.{mname}")
         rets = [r for r in walk_shallow(fn) if isinstance(r, ast.Return) and isinstance(r.value, ast.Call) and call_name(r.value) == "Result"]
         ok = len(rets) == 1 and [unparse(a) for a in rets[0].value.args] == ["environments", "learners", "evaluators", "interactions", "self.experiment"]
         ctx.ob("C18.R1", RES, f"Result.{mname}", rets[0] if rets else fn, "the narrowed tables are returned in (environments, learners, evaluators, interactions, experiment) order", ok)
@@ -89,7 +182,7 @@ def _unpack_position(fn, name):
 
 def r2_completeness(ctx):
     ctx.rule("C18.R2", "_group_p keeps a pairing group only when it has exactly one evaluation per level: larger and smaller groups are both removed")
-    gp = ctx.fn(RES, "Result._group_p")
+    gp = _fn(ctx, "Result._group_p")
     chain_ifs = [x for x in walk_shallow(gp) if isinstance(x, ast.If) and unparse(x.test).startswith("len(group)")]
     ctx.floor("C18.R2", "group-size tests", len(chain_ifs), 2)
     tests = {}
@@ -119,7 +212,7 @@ def r2_completeness(ctx):
 def r3_length(ctx):
     ctx.rule("C18.R3", "_global_n drops evaluations with fewer than n rows (strict <), truncates with index <= n (1-based index), "
                        "and _remove drops all rows of a removed evaluation")
-    gn = ctx.fn(RES, "Result._global_n")
+    gn = _fn(ctx, "Result._global_n")
     drops = [x for x in walk_shallow(gn) if isinstance(x, ast.If) and "env_len" in unparse(x.test) and any("to_drop.append" in unparse(s) for s in x.body)]
     ok = len(drops) == 1 and unparse(drops[0].test) == "env_len < n" and any("to_keep.append" in unparse(s) for s in drops[0].orelse)
     ctx.ob("C18.R3", RES, "Result._global_n", drops[0] if drops else gn, "an evaluation is dropped iff it is shorter than n; otherwise it is kept", ok)
@@ -136,7 +229,7 @@ def r3_length(ctx):
     grp = [x for x in walk_shallow(gn) if isinstance(x, ast.For) and "groupby(" in unparse(x.iter)]
     ok = len(grp) == 2 and all(unparse(g.iter) == "self.interactions.groupby(3, 'count')" for g in grp)
     ctx.ob("C18.R3", RES, "Result._global_n", grp[0] if grp else gn, "lengths are counted per (environment, learner, evaluator) triple", ok, stmt="groupby(3,'count')")
-    rm = ctx.fn(RES, "Result._remove")
+    rm = _fn(ctx, "Result._remove")
     ext = [c for c in walk_shallow(rm) if isinstance(c, ast.Call) and unparse(c.func) == "select.extend"]
     ok = len(ext) == 2 and unparse(ext[0].args[0]) == "range(loc, lo3 + (n if hi3 - lo3 > n else 0))" and unparse(ext[1].args[0]) == "range(loc, n_interactions)"
     ctx.ob("C18.R3", RES, "Result._remove", ext[0] if ext else rm, "rows before a removed evaluation are kept, its own rows are skipped (loc = hi3), the tail is kept", ok and "loc = hi3" in unparse(rm))
@@ -152,7 +245,7 @@ def r4_order(ctx):
     for tbl, col in OWN.items():
         c = [x for x in walk_shallow(init) if isinstance(x, ast.Call) and unparse(x.func) == f"self._{tbl}.index"]
         ctx.ob("C18.R4", RES, "Result.__init__", c[0] if c else init, f"{tbl} is indexed by {col}", len(c) == 1 and [const_str(a) for a in c[0].args] == [col], stmt=f"index {tbl}")
-    rm = ctx.fn(RES, "Result._remove")
+    rm = _fn(ctx, "Result._remove")
     cols = [x for x in walk_shallow(rm) if isinstance(x, ast.Assign) and isinstance(x.targets[0], ast.Tuple) and "self.interactions[[" in unparse(x.value)]
     ok = len(cols) == 1 and [unparse(t) for t in cols[0].targets[0].elts] == ["env_ids", "lrn_ids", "val_ids"] and \
         [const_str(e) for e in cols[0].value.slice.elts] == ORDER
@@ -166,7 +259,30 @@ def r4_order(ctx):
     ctx.ob("C18.R4", RES, "Result._remove", rm, "the ids to remove are visited in sorted (index) order and unpacked as (e,l,v)", ok, stmt="sorted ids")
 
 
+def r5_tail_windows(ctx):
+    ctx.rule("C18.R5", "averaging windows: a 'last span values' window is sliced as Y[-span:] (which degrades to the whole list when span > len(Y)); "
+                       "a start computed as len(Y) - span must be clamped at 0, otherwise it wraps around for short evaluations")
+    n = 0
+    for qual in ("Result._grouped_ys", "moving_average"):
+        fn = ctx.fn(RES, qual)
+        for x in ast.walk(fn):
+            if isinstance(x, ast.Subscript) and isinstance(x.slice, ast.Slice):
+                n += 1
+                lo = x.slice.lower
+                bad = isinstance(lo, ast.BinOp) and isinstance(lo.op, ast.Sub) and isinstance(lo.left, ast.Call) and call_name(lo.left) == "len"
+                ctx.ob("C18.R5", RES, qual, x, "slice start cannot go negative by subtraction from a length", not bad, trivial=not bad)
+    ctx.floor("C18.R5", "slices in the averaging code", n, 1)
+    gy = ctx.fn(RES, "Result._grouped_ys")
+    lasts = [x for x in ast.walk(gy) if isinstance(x, ast.IfExp) and "span == 1" in unparse(x.test)]
+    ok = len(lasts) == 1 and isinstance(lasts[0].orelse, ast.IfExp) and unparse(lasts[0].orelse.test) == "span"
+    if ok:
+        Y = unparse(lasts[0].body.value) if isinstance(lasts[0].body, ast.Subscript) else "Y"
+        ok = unparse(lasts[0].body) == f"{Y}[-1]" and unparse(lasts[0].orelse.body) == f"mean({Y}[-span:])" and unparse(lasts[0].orelse.orelse) == f"mean({Y})"
+    ctx.ob("C18.R5", RES, "Result._grouped_ys", lasts[0] if lasts else gy, "the final value is the last y (span 1), the mean of the last span ys, or the mean of all ys", ok, stmt="final average")
+
+
 CONTROLS = [
+    ("window start wraps", RES, M.replace_expr("Result._grouped_ys", "Y[-span:]", "Y[len(Y) - span:]"), "C18.R5"),
     ("learners by environment id", RES, M.replace_expr("Result._group_p", "learners.where(learner_id=l_keep)", "learners.where(environment_id=l_keep)"), "C18.R1"),
     ("swapped unpack", RES, M.replace_expr("Result._group_p", "(e_keep, l_keep, v_keep)", "(l_keep, e_keep, v_keep)"), "C18.R1"),
     ("keep larger groups", RES, M.replace_expr("Result._group_p", "len(group) > n_levels", "len(group) > n_levels + 1"), "C18.R2"),
